@@ -196,7 +196,10 @@ impl Prop for C07 {
             let shared: Vec<usize> = (0..conns.len()).filter(|i| (0..conns.len()).any(|j| j != *i && ((conns[j].client.ip == conns[*i].client.ip && conns[j].server.ip == conns[*i].server.ip) || (conns[j].client.ip == conns[*i].server.ip && conns[j].server.ip == conns[*i].client.ip)))).collect();
             let pi = if !shared.is_empty() && r.chance(2, 3) { *r.pick(&shared) } else { r.usize_below(conns.len()) };
             let ck = kinds_for(kind, r);
-            let succ = conn::build(r, ck, conns[pi].client, conns[pi].server, &o);
+            // one time in three the roles are swapped: the earlier server's address and port now open the connection
+            // (peers that call each other back, active-mode data channels)
+            let swapped = r.chance(1, 3);
+            let succ = if swapped { conn::build(r, ck, conns[pi].server, conns[pi].client, &o) } else { conn::build(r, ck, conns[pi].client, conns[pi].server, &o) };
             if r.chance(1, 2) && conns[pi].steps.len() > 4 {
                 // the predecessor stops half-way
                 let keep = r.urange(3, conns[pi].steps.len() - 1);
@@ -261,7 +264,15 @@ impl Prop for C07 {
             }
         }
         let boundaries = boundaries.into_iter().map(|b: usize| b.min(order.len())).collect();
-        Scn { kind, cap: 2 * conns.len() + 4 + r.usize_below(50), conns, order, via_loop, boundaries }
+        // exact capacity (HTTP analyzer, one scenario in four): one table entry per pair of endpoints is all a correct
+        // analyzer ever needs - flows are opened by SYNs only and a reused 4-tuple replaces its earlier entry
+        let mut pairs = std::collections::BTreeSet::new();
+        for c in &conns {
+            let (a, b) = ((c.client.ip, c.client.port), (c.server.ip, c.server.port));
+            pairs.insert(if a <= b { (a, b) } else { (b, a) });
+        }
+        let cap = if kind == Kind::Http && r.chance(1, 4) { pairs.len() } else { 2 * conns.len() + 4 + r.usize_below(50) };
+        Scn { kind, cap, conns, order, via_loop, boundaries }
     }
 
     fn run(s: &Scn, st: &mut RunStats) -> Result<(), Violation> {
@@ -286,6 +297,9 @@ impl Prop for C07 {
         }
         if s.conns.iter().enumerate().any(|(i, c)| s.conns[..i].iter().any(|p| p.client == c.client && p.server == c.server)) {
             st.fault("four_tuple_reused_by_a_later_connection");
+        }
+        if s.conns.iter().enumerate().any(|(i, c)| s.conns[..i].iter().any(|p| p.client == c.server && p.server == c.client)) {
+            st.fault("four_tuple_reused_with_swapped_roles");
         }
         if s.conns.iter().any(|c| c.steps.iter().any(|x| x.dt_ns >= 20_000_000_000)) {
             st.fault("idle_beyond_a_flow_ttl");
@@ -344,7 +358,17 @@ impl Prop for C07 {
             }
         }
         st.probe_n("connections_producing_results", producing);
-        if s.cap < s.conns.len() {
+        let pairs: std::collections::BTreeSet<_> = s
+            .conns
+            .iter()
+            .map(|c| {
+                let (a, b) = ((c.client.ip, c.client.port), (c.server.ip, c.server.port));
+                if a <= b { (a, b) } else { (b, a) }
+            })
+            .collect();
+        if s.cap == pairs.len() {
+            st.fault("flow_table_exactly_as_large_as_the_number_of_endpoint_pairs");
+        } else if s.cap < s.conns.len() {
             st.fault("staggered_expiry_under_exact_capacity");
         }
         if s.conns.len() >= 1000 {
